@@ -81,15 +81,17 @@ func run(e *vlib.Env) vlib.Result {
 
 	ctl := vlib.NewCtl(r.Uint64(), yieldP, 60)
 	defer ctl.Uninstall()
-	listenerLeak := func(g vlib.Goroutine) bool { return g.Has("requestreply.PubSubBackend") && g.Has("ListenForNotifications") }
+	listenerLeak := func(g vlib.Goroutine) bool {
+		return g.Has("requestreply.PubSubBackend") && g.Has("ListenForNotifications")
+	}
 	leakBefore, _ := vlib.CountGoroutines(listenerLeak)
 
 	logger := watermill.NopLogger{}
 	ps := gochannel.NewGoChannel(gochannel.Config{}, logger)
 	var mu sync.Mutex
-	finished := map[string]int{}         // command id -> OnListenForReplyFinished calls
+	finished := map[string]int{}             // command id -> OnListenForReplyFinished calls
 	cmdMsgs := map[string]*message.Message{} // operation id -> consumed command message
-	cmdOf := map[string]string{}         // operation id -> command id
+	cmdOf := map[string]string{}             // operation id -> command id
 	var settledEarly []string
 	handlerCalls := map[string]int{}
 	var events atomic.Int64
@@ -153,8 +155,8 @@ func run(e *vlib.Env) vlib.Result {
 	}
 	proc, err := cqrs.NewCommandProcessorWithConfig(router, cqrs.CommandProcessorConfig{
 		GenerateSubscribeTopic: func(cqrs.CommandProcessorGenerateSubscribeTopicParams) (string, error) { return id + "/commands", nil },
-		SubscriberConstructor: func(cqrs.CommandProcessorSubscriberConstructorParams) (message.Subscriber, error) { return ps, nil },
-		Marshaler:             marshaler, Logger: logger,
+		SubscriberConstructor:  func(cqrs.CommandProcessorSubscriberConstructorParams) (message.Subscriber, error) { return ps, nil },
+		Marshaler:              marshaler, Logger: logger,
 	})
 	if err != nil {
 		res.Verdict, res.Reason = vlib.HarnessError, err.Error()
